@@ -342,7 +342,7 @@ func (w *Worker) runPath(harness *ssa.Function, prefix []int) (ex *Exec, end pat
 	e := w.eng
 	ex = &Exec{eng: e, w: w, tc: newTermCtx(), sol: w.sol, prefix: prefix,
 		globals: map[*ssa.Global]*Value{}, initDone: map[*ssa.Package]bool{},
-		mutexes: map[*Value]*mutexState{}, wgs: map[*Value]*wgState{},
+		mutexes: map[*Value]*mutexState{}, wgs: map[*Value]*wgState{}, syncMaps: map[*Value]*mapObj{},
 		reached: map[string]bool{}, assumes: map[string]bool{}, hashSyms: map[string]*Term{}, wfShard: map[string]int{},
 		errCodes: map[*Value]int{}, stubsHit: map[string]bool{}, funcsHit: map[*ssa.Function]bool{},
 		tracked: map[string]Value{}, cfg: map[string]int64{}, posHits: map[string]int{},
